@@ -1,19 +1,16 @@
 (* C13 - Parsers reject bad input only with the documented format error.
-   Statements only; proofs live in Proofs/C13_*.v.  The except clauses (caught tuples, handler classes) and the layout of
-   raising sites are regenerated from /repo on every run into Gen/C13_ExcSpec.v; the models take the clauses from there.
+   This file: the tie of the models to the current source - the raising-site layout regenerated from /repo
+   (Gen/C13_ExcSpec.v) is the one the models account for (Model/C13_Sites.v).  The property itself is stated per format in
+   Props/C13_Xyz.v, C13_Pdffit.v, C13_Discus.v, C13_Xcfg.v, C13_Pdb.v, C13_Cif.v (each depends only on its own model and
+   proof, so a change in one parser does not disturb the others) and the satisfiability instances in Props/C13_Examples.v.
 
    Each `only_documented_<fmt>` says: for EVERY list of lines (every string, for cif), whatever the tokeniser and the number /
    geometry primitives answer within their declared exception kinds, the model of parseLines returns a value or raises
-   StructureFormatError / NotImplementedError - nothing else. *)
-From Coq Require Import List Bool Arith ZArith.
-From DS Require Import Base.C13_Exn Gen.C13_ExcSpec Model.C13_Common Model.C13_Sites
-                       Model.C13_Xyz Model.C13_Pdffit Model.C13_Discus Model.C13_Xcfg Model.C13_Pdb Model.C13_Cif.
-From DS Require Import Proofs.C13_ExnLemmas Proofs.C13_Xyz Proofs.C13_Pdffit Proofs.C13_Xcfg Proofs.C13_Pdb Proofs.C13_Cif
-                       Proofs.C13_Examples.
-From Coq Require Import Ascii String.
+   StructureFormatError / NotImplementedError - nothing else.  The except clauses are those of Gen/C13_ExcSpec.v. *)
+From Coq Require Import List String.
+From DS Require Import Base.C13_Exn Gen.C13_ExcSpec Model.C13_Sites.
 Import ListNotations.
 
-(* ---- the tie: the site layout of the current source is the one the models were written for ---- *)
 Theorem C13_sites_xyz : xyz_sites = xyz_sites_expected.
 Proof. exact eq_refl. Qed.
 Theorem C13_sites_rawxyz : rawxyz_sites = rawxyz_sites_expected.
@@ -29,106 +26,3 @@ Proof. exact eq_refl. Qed.
 Theorem C13_sites_cif : cif_sites = cif_sites_expected.
 Proof. exact eq_refl. Qed.
 
-(* ---- the property, per format ----------------------------------------------------------------- *)
-Theorem C13_only_documented_xyz :
-  forall (V : Type) (split : string -> list string) (int_of : string -> res Z) (canon_int : string -> bool)
-         (float_of : string -> res V),
-    (forall s w, In w (split s) -> w <> EmptyString) ->
-    (forall s, within [ValueError] (int_of s)) ->
-    (forall s, within [ValueError] (float_of s)) ->
-    forall lines, documented (parse_xyz V split int_of canon_int float_of lines).
-Proof. exact only_documented_xyz. Qed.
-Print Assumptions C13_only_documented_xyz.
-
-Theorem C13_only_documented_rawxyz :
-  forall (V : Type) (split : string -> list string) (float_of : string -> res V),
-    (forall s, within [ValueError] (float_of s)) ->
-    forall lines, documented (parse_rawxyz V split float_of lines).
-Proof. exact (fun V split float_of H lines => only_documented_rawxyz V split (fun _ => Ok 0%Z) (fun _ => true) float_of H lines). Qed.
-Print Assumptions C13_only_documented_rawxyz.
-
-Theorem C13_only_documented_pdffit :
-  forall (V : Type) (split split_commas : string -> list string) (isblank : string -> bool)
-         (float_of : string -> res V) (int_of : string -> res Z) (lattice_of : list V -> res unit) (mulZ : V -> Z -> res V),
-    (forall s, within [ValueError] (float_of s)) ->
-    (forall s, within [ValueError] (int_of s)) ->
-    (forall l, within [ValueError; ZeroDivisionError] (lattice_of l)) ->
-    (forall v z, within [OverflowError] (mulZ v z)) ->
-    forall lines, documented (parse_pdffit V split split_commas isblank float_of int_of lattice_of mulZ lines).
-Proof. exact only_documented_pdffit. Qed.
-Print Assumptions C13_only_documented_pdffit.
-
-Theorem C13_only_documented_discus :
-  forall (V : Type) (split split_commas : string -> list string) (isblank : string -> bool)
-         (float_of : string -> res V) (int_of : string -> res Z)
-         (set_lat_par : list (list V) -> list V -> res unit) (cell_pars : list (list V) -> list V)
-         (lattice_of : list V -> res unit) (mulZ : V -> Z -> res V),
-    (forall s, within [ValueError] (float_of s)) ->
-    (forall s, within [ValueError] (int_of s)) ->
-    (forall h l, within [ValueError; ZeroDivisionError] (set_lat_par h l)) ->
-    (forall l, within [ValueError; ZeroDivisionError] (lattice_of l)) ->
-    (forall v z, within [OverflowError] (mulZ v z)) ->
-    forall lines, documented (parse_discus V split split_commas isblank float_of int_of set_lat_par cell_pars lattice_of mulZ lines).
-Proof. exact only_documented_discus. Qed.
-Print Assumptions C13_only_documented_discus.
-
-Theorem C13_only_documented_xcfg :
-  forall (V : Type) (split : string -> list string) (isblank : string -> bool)
-         (float_of : string -> res V) (int_of : string -> res Z)
-         (first_word_from : nat -> string -> option string) (aux_match : string -> option (string * nat))
-         (lat_base_of : list (option V) -> res unit) (aux_assign : string -> res unit),
-    (forall s, within [ValueError] (float_of s)) ->
-    (forall s, within [ValueError] (int_of s)) ->
-    (forall h, within [LatticeError; ValueError; ZeroDivisionError] (lat_base_of h)) ->
-    (forall p, within [IndexError; FormatError] (aux_assign p)) ->
-    forall lines, documented (parse_xcfg V split isblank float_of int_of first_word_from aux_match lat_base_of aux_assign lines).
-Proof. exact only_documented_xcfg. Qed.
-Print Assumptions C13_only_documented_xcfg.
-
-Theorem C13_only_documented_pdb :
-  forall (V : Type) (split : string -> list string) (isblank : string -> bool) (float_of : string -> res V)
-         (set_lat_par : list V -> res unit)
-         (scale3_finish : lat_state V -> list (option (list V)) -> list (option V) -> res (bool * bool))
-         (set_xyz_cartn dot_scale : lat_state V -> list V -> res unit),
-    (forall s, within [ValueError] (float_of s)) ->
-    (forall l, within [ValueError; ZeroDivisionError] (set_lat_par l)) ->
-    (forall a b c, within [LinAlgError; ValueError; LatticeError; ZeroDivisionError] (scale3_finish a b c)) ->
-    (forall a l, within [ValueError] (set_xyz_cartn a l)) ->
-    (forall a l, within [ValueError] (dot_scale a l)) ->
-    forall lines, documented (parse_pdb V split isblank float_of set_lat_par scale3_finish set_xyz_cartn dot_scale lines).
-Proof. exact only_documented_pdb. Qed.
-Print Assumptions C13_only_documented_pdb.
-
-(* cif, partial: the oracle hypotheses leave out (1) items that are lists where one value is expected and (2) the eval
-   inside getSymOp; both classes are refuted below and recorded as known findings *)
-Theorem C13_only_documented_cif_partial :
-  forall (V CF B : Type) (read_cif : string -> res CF) (blocks : CF -> list B) (has_sites has_cell : B -> bool)
-         (cell_item : B -> nat -> res string) (leading_float : string -> res V) (lattice_of : list V -> res unit)
-         (atom_sites aniso_sites symops : B -> res unit),
-    (forall s, within [StarError; YappsSyntaxError; ValueError] (read_cif s)) ->
-    (forall b i, within [KeyError] (cell_item b i)) ->
-    (forall s, within [ValueError] (leading_float s)) ->
-    (forall l, within [ValueError; ZeroDivisionError] (lattice_of l)) ->
-    (forall b, within [KeyError; ValueError; IndexError] (atom_sites b)) ->
-    (forall b, within [KeyError; ValueError; IndexError] (aniso_sites b)) ->
-    (forall b, within [KeyError; ValueError; IndexError; ZeroDivisionError; FormatError] (symops b)) ->
-    forall text, documented (parse_cif V CF B read_cif blocks has_sites has_cell cell_item leading_float lattice_of
-                                       atom_sites aniso_sites symops text).
-Proof. exact only_documented_cif_partial. Qed.
-Print Assumptions C13_only_documented_cif_partial.
-
-Theorem C13_only_documented_cif_nonscalar_refuted :
-  exists lf, (forall s, within [ValueError; AttributeError] (lf s)) /\ cif_with lf (fun _ => Ok tt) = Raise AttributeError.
-Proof. exact cif_nonscalar_item_refuted. Qed.
-
-Theorem C13_only_documented_cif_symop_eval_refuted :
-  exists sy, (forall b, within [KeyError; ValueError; IndexError; FormatError; NameError; SyntaxError; TypeError] (sy b)) /\
-             cif_with (fun _ => Ok tt) sy = Raise NameError.
-Proof. exact cif_symop_eval_refuted. Qed.
-
-(* the hypotheses are satisfiable: concrete oracles on which the models accept and reject *)
-Theorem C13_hypotheses_satisfiable :
-  (forall s w, In w (split_sp s) -> w <> EmptyString) /\ (forall s, within [ValueError] (ex_int s)) /\
-  (forall s, within [ValueError] (ex_float s)) /\
-  ex_xyz ["1"; "title"; "C 0 0 0"]%string = Ok 1 /\ ex_xyz ["1"; "title"; "C 0 0 x"]%string = Raise FormatError.
-Proof. exact (conj ex_split_nonempty (conj ex_int_kinds (conj ex_float_kinds (conj xyz_accepts xyz_rejects_number)))). Qed.
